@@ -28,6 +28,7 @@ import multiprocessing as mp
 import os
 import signal
 import sys
+import time
 from concurrent.futures import ThreadPoolExecutor
 from fractions import Fraction
 
@@ -659,6 +660,8 @@ def main():
     ctx = mp.get_context("fork")
     pool = ctx.Pool(16, initializer=_worker_init)
     results = {}
+    phase = {}
+    t_ph = time.time()
     try:
         # the independent input enumeration runs in the pool while TLC runs
         count_jobs = {}
@@ -674,6 +677,8 @@ def main():
                 results[name] = fu.result()
             rctrl = fctrl.result()
 
+        phase['tlc_all_runs_concurrent'] = round(time.time() - t_ph, 1)
+        t_ph = time.time()
         tot_states = tot_trans = 0
         for name, res in results.items():
             tot_states += res.distinct
@@ -732,6 +737,8 @@ def main():
             per_family[name] = fam
             res.cleanup()
 
+        phase['parse_validate_replay'] = round(time.time() - t_ph, 1)
+        t_ph = time.time()
         # ---- inputs beyond TLC's integers: geometric 2^-sj vectors and seeded random skewed vectors
         rng = np.random.RandomState(ck.seed + 20)
         big = []
@@ -782,6 +789,7 @@ def main():
             bigagg["max_N"] = max(bigagg["max_N"], r["N"])
             if r["replayed"] and r["label"].startswith("geo:N=100") and len(ck.samples) < 6:
                 ck.sample({"big_case": r["label"], "kept": r["kept"], "loop_index_at_break": r["i"]})
+        phase['beyond_tlc_inputs'] = round(time.time() - t_ph, 1)
     finally:
         pool.terminate()
         pool.join()
@@ -877,6 +885,7 @@ def main():
         "information_only": info,
         "monitoring_only_volume_variation": mon,
         "trim_calls": n_trim_calls,
+        "phase_wall_s": phase,
     })
 
 
